@@ -169,10 +169,11 @@ class GenerateWasmVisitor(Visitor.DefaultVisitor):
     def v_BinaryInstruction(self, bi: LinearIR.BinaryInstruction, ctx: Context):
         assert ctx.Code
 
-        if isinstance(bi.Type, LinearIR.IntegerType):
+        operandType = bi.Values[0].Type
+        if isinstance(operandType, LinearIR.IntegerType):
             operationType = "i32"
-            unsigned = bi.Type.Unsigned
-        elif isinstance(bi.Type, LinearIR.FloatType):
+            unsigned = operandType.Unsigned
+        elif isinstance(operandType, LinearIR.FloatType):
             operationType = "f32"
         else:
             raise RuntimeError(
